@@ -35,6 +35,14 @@ def unit_tests(wt):
 
 
 def ensure_clean():
+    import fcntl
+    os.makedirs("/tmp/wt", exist_ok=True)
+    with open("/tmp/wt/.clean.lock", "w") as lk:
+        fcntl.flock(lk, fcntl.LOCK_EX)
+        _ensure_clean()
+
+
+def _ensure_clean():
     head = sh("git -C /repo rev-parse HEAD")[1].strip()
     if os.path.exists(CLEAN + "/.head") and open(CLEAN + "/.head").read() == head and os.path.exists(CLEAN + "/mlr"):
         return
@@ -163,9 +171,16 @@ def main():
         mp = os.path.join(sd, "meta.json")
         if os.path.exists(mp):
             old = json.load(open(mp))
-            for k in ("needs_to_manifest", "summary", "history"):
+            for k in ("needs_to_manifest", "summary"):
                 if k in old:
                     meta[k] = old[k]
+            if not confirm and old.get("confirmation"):
+                meta["confirmation"] = old["confirmation"]
+                meta["repo_commit"] = old.get("repo_commit", meta["repo_commit"])
+            hist = old.get("history", [])
+            hist.append({"verif_commit": old.get("verif_commit"), "checks": old.get("checks")})
+            meta["history"] = hist
+        meta["verif_commit"] = sh("git -C /verif rev-parse --short HEAD")[1].strip()
         json.dump(meta, open(mp, "w"), indent=1)
     print(json.dumps(res))
 
